@@ -8,18 +8,24 @@
    The model FOLLOWS THE CODE, including where the code is wrong; the laws that hold and the ones that
    are refuted are in RuntimeLaws.v / ContainerLaws.v.
 
-   Lua 5.1 / LuaJIT dispatch rules relied upon (they are part of the trusted LuaCore definition):
-   * `a == b`: different Lua types -> false; numbers, strings, booleans, nil compare primitively; two
-     tables: the same table -> true, otherwise the `__eq` metamethod is called iff both operands have
-     the SAME `__eq`, otherwise false.  `a ~= b` is `not (a == b)`.
-   * `a < b`: two numbers, two strings (byte order), otherwise `__lt` iff both have the same `__lt`,
-     otherwise an error.  `a <= b` likewise with `__le`.  `a > b` is `b < a`, `a >= b` is `b <= a`.
-   * `a + b` etc.: if both operands are numbers or strings convertible to numbers, arithmetic;
-     otherwise the `__add` of the first operand, or else of the second; otherwise an error.
+   REFERENCE INTERPRETER: Lua 5.3 (the repo's CI installs lua5.3).  Dispatch rules relied upon (they are
+   part of the trusted LuaCore definition):
+   * `a == b`: different basic types -> false; numbers compare by mathematical value (1 == 1.0), strings,
+     booleans, nil primitively; two tables: the same table -> true, otherwise the `__eq` metamethod of
+     the FIRST operand, or else of the second, is called; no metamethod -> false.  `a ~= b` is
+     `not (a == b)`.
+   * `a < b`: two numbers, two strings (byte order), otherwise `__lt` of the first operand, or else of
+     the second; none -> error.  `a <= b` likewise with `__le`.  `a > b` is `b < a`, `a >= b` is
+     `b <= a`.
+   * `a + b` etc.: if both operands are numbers (or strings convertible to numbers), arithmetic -- two
+     integers give an integer for + - *, `/` always gives a float; otherwise the `__add` of the first
+     operand, or else of the second; otherwise an error.
+   MODEL BOUNDARY for ill-typed operands (never admitted by the Sylt type checker): comparing or adding
+   tables of different kinds runs the first operand's metamethod on the odd operand; this is modelled
+   for tuple/list mixes and is `Unsup` (for ==: false) for the other mixes.
    Functions received from Sylt (`map`, `filter`, `fold`, `find`) are total pure Gallina functions here. *)
 From Coq Require Import String Ascii List NArith ZArith QArith Bool.
 From Sylt Require Import Lua.LuaNum Sem.Values.
-From Sylt Require Lua.LuaCore.
 Import ListNotations.
 Local Open Scope string_scope.
 
@@ -44,6 +50,26 @@ Fixpoint join (sep : string) (l : list string) : string :=
   | x :: l' => x ++ sep ++ join sep l'
   end.
 
+(* ---- numbers ---- *)
+
+Definition vint (z : Z) : value := VInt z.
+Definition vlen (n : nat) : value := VInt (Z.of_nat n).
+
+(* the mathematical value of a number *)
+Definition num_q (v : value) : option Q :=
+  match v with VInt z => Some (z # 1) | VFloat q => Some q | _ => None end.
+
+(* lua_Number2str of Lua 5.3: "%.14g", and ".0" appended when the result looks like an integer *)
+Fixpoint looks_like_int (s : string) : bool :=
+  match s with
+  | EmptyString => true
+  | String c s' =>
+      let n := N_of_ascii c in
+      (((48 <=? n)%N && (n <=? 57)%N) || (n =? 45)%N) && looks_like_int s'
+  end.
+Definition fmt_float (q : Q) : string :=
+  let s := fmt_g14 q in if looks_like_int s then s ++ ".0" else s.
+
 (* ---- tostring ---- *)
 
 Fixpoint rt_tostring (v : value) : string :=
@@ -52,7 +78,8 @@ Fixpoint rt_tostring (v : value) : string :=
   | VNil => "nil"                                              (* __NIL's __tostring *)
   | VBool true => "true"
   | VBool false => "false"
-  | VNum q => fmt_g14 q                                        (* %.14g *)
+  | VInt z => z_to_dec z                                       (* "%d" *)
+  | VFloat q => fmt_float q                                    (* "%.14g" (+ ".0") *)
   | VStr s => s
   | VTuple vs =>
       "(" ++ join ", " (map (fun x => rt_tostring x) vs) ++ (match vs with [_] => "," | _ => "" end) ++ ")"
@@ -88,14 +115,17 @@ Fixpoint rt_eq (a b : value) {struct a} : bool :=
   | VLuaNil, VLuaNil => true
   | VNil, VNil => true                                          (* the one __NIL table *)
   | VBool x, VBool y => Bool.eqb x y
-  | VNum p, VNum q => q_eqb p q
+  | VInt x, VInt y => Z.eqb x y
+  | VFloat p, VFloat q => q_eqb p q
+  | VInt x, VFloat q => q_eqb (x # 1) q                       (* mathematical equality across subtypes *)
+  | VFloat p, VInt y => q_eqb p (y # 1)
   | VStr s, VStr t => String.eqb s t
   | VFun i, VFun j => N.eqb i j
-  | VTuple xs, VTuple ys =>
+  | VTuple xs, VTuple ys | VTuple xs, VList ys =>
       (* __TUPLE_META.__eq: for x = 1, #a do if not (a[x] == b[x]) then return false end end return true
          (a[x] == nil is false) *)
       zip_all (fun x y => rt_eq x y) xs ys
-  | VList xs, VList ys =>
+  | VList xs, VList ys | VList xs, VTuple ys =>
       (* __LIST_META.__eq: lengths first *)
       if Nat.eqb (length xs) (length ys) then zip_all (fun x y => rt_eq x y) xs ys else false
   | VBlob fa, VBlob fb =>
@@ -136,26 +166,36 @@ Definition rt_neq (a b : value) : bool := negb (rt_eq a b).      (* `~=` *)
 
 Fixpoint rt_lt (a b : value) {struct a} : res bool :=
   match a, b with
-  | VNum p, VNum q => Ok (q_ltb p q)
+  | VInt x, VInt y => Ok (x <? y)%Z
+  | VFloat p, VFloat q => Ok (q_ltb p q)
+  | VInt x, VFloat q => Ok (q_ltb (x # 1) q)
+  | VFloat p, VInt y => Ok (q_ltb p (y # 1))
   | VStr s, VStr t => Ok (str_ltb s t)
-  | VTuple xs, VTuple ys =>
+  | VTuple xs, VTuple ys | VTuple xs, VList ys =>
       (* __TUPLE_META.__lt: for x = 1, #a do if a[x] ~= b[x] then return a[x] < b[x] end end return false
          (b shorter: a[x] ~= nil, then a[x] < nil is an error) *)
       lex_go (fun x y => rt_eq x y) (fun x y => rt_lt x y) false xs ys
-  | VList xs, VList ys =>
+  | VList xs, VList ys | VList xs, VTuple ys =>
       (* __LIST_META.__lt: every a[x] < b[x] (NOT lexicographic; the checker admits no list operands) *)
       zip_allM (fun x y => rt_lt x y) xs ys
+  | (VTuple _ | VList _), (VNil | VBlob _ | VVariant _ _ | VDict _ | VSet _) => Unsup   (* exotic mix *)
+  | (VNil | VBlob _ | VVariant _ _ | VDict _ | VSet _), (VTuple _ | VList _) => Unsup
   | _, _ => Err                                                 (* attempt to compare ... *)
   end.
 
 Fixpoint rt_le (a b : value) {struct a} : res bool :=
   match a, b with
-  | VNum p, VNum q => Ok (q_leb p q)
+  | VInt x, VInt y => Ok (x <=? y)%Z
+  | VFloat p, VFloat q => Ok (q_leb p q)
+  | VInt x, VFloat q => Ok (q_leb (x # 1) q)
+  | VFloat p, VInt y => Ok (q_leb p (y # 1))
   | VStr s, VStr t => Ok (str_leb s t)
-  | VTuple xs, VTuple ys =>
+  | VTuple xs, VTuple ys | VTuple xs, VList ys =>
       (* __TUPLE_META.__le: as __lt, but `return true` at the end *)
       lex_go (fun x y => rt_eq x y) (fun x y => rt_lt x y) true xs ys
-  | VList xs, VList ys => zip_allM (fun x y => rt_le x y) xs ys
+  | VList xs, VList ys | VList xs, VTuple ys => zip_allM (fun x y => rt_le x y) xs ys
+  | (VTuple _ | VList _), (VNil | VBlob _ | VVariant _ _ | VDict _ | VSet _) => Unsup
+  | (VNil | VBlob _ | VVariant _ _ | VDict _ | VSet _), (VTuple _ | VList _) => Unsup
   | _, _ => Err
   end.
 
@@ -166,20 +206,49 @@ Definition rt_ge (a b : value) : res bool := rt_le b a.         (* and a >= b to
 
 Inductive aop := OpAdd | OpSub | OpMul | OpDiv.
 
-Definition num_op (o : aop) (x y : Q) : res Q :=
+(* two integers: + - * stay integers; / converts to float *)
+Definition int_op (o : aop) (x y : Z) : res value :=
   match o with
-  | OpAdd => Ok (q_add x y)
-  | OpSub => Ok (q_sub x y)
-  | OpMul => Ok (q_mul x y)
-  | OpDiv => if q_is_zero y then Unsup else Ok (q_div x y)      (* x/0 is inf or NaN *)
+  | OpAdd => Ok (VInt (x + y))
+  | OpSub => Ok (VInt (x - y))
+  | OpMul => Ok (VInt (x * y))
+  | OpDiv => if (y =? 0)%Z then Unsup else Ok (VFloat (q_div (x # 1) (y # 1)))   (* x/0 is inf or NaN *)
   end.
 
-(* numbers, and strings that look like numbers (Lua coerces them in arithmetic) *)
-Definition to_num (v : value) : option Q :=
+(* at least one float *)
+Definition float_op (o : aop) (p q : Q) : res value :=
+  match o with
+  | OpAdd => Ok (VFloat (q_add p q))
+  | OpSub => Ok (VFloat (q_sub p q))
+  | OpMul => Ok (VFloat (q_mul p q))
+  | OpDiv => if q_is_zero q then Unsup else Ok (VFloat (q_div p q))
+  end.
+
+Inductive operand := ONum (v : value) | OStrNum | ONotNum.
+
+(* Lua coerces strings that are numerals to numbers in arithmetic.  That conversion is outside the
+   model: a string WITHOUT any decimal digit is certainly no numeral (Lua 5.3 also rejects "inf" and
+   "nan"); a string with a digit MAY be one, and arithmetic on it is `Unsup`. *)
+Fixpoint has_digit (s : string) : bool :=
+  match s with
+  | EmptyString => false
+  | String c s' => let n := N_of_ascii c in ((48 <=? n)%N && (n <=? 57)%N) || has_digit s'
+  end.
+
+Definition operand_of (v : value) : operand :=
   match v with
-  | VNum q => Some q
-  | VStr s => LuaCore.str_to_num s
-  | _ => None
+  | VInt _ | VFloat _ => ONum v
+  | VStr s => if has_digit s then OStrNum else ONotNum
+  | _ => ONotNum
+  end.
+
+Definition num_arith (o : aop) (a b : value) : res value :=
+  match a, b with
+  | VInt x, VInt y => int_op o x y
+  | VInt x, VFloat q => float_op o (x # 1) q
+  | VFloat p, VInt y => float_op o p (y # 1)
+  | VFloat p, VFloat q => float_op o p q
+  | _, _ => Err
   end.
 
 (* The body of __TUPLE_META.__add/__sub/__mul/__div, given the elements xs of the operand whose length
@@ -188,7 +257,7 @@ Definition to_num (v : value) : option Q :=
 Definition tuple_handler (o : aop) (rec : value -> value -> res value) (xs : list value) (b : value) : res value :=
   match b with
   | VTuple ys | VList ys => rmap VTuple (zipM rec xs ys)
-  | VNum _ | VBool _ | VLuaNil | VFun _ | VStr _ =>
+  | VInt _ | VFloat _ | VBool _ | VLuaNil | VFun _ | VStr _ =>
       match o with
       | OpDiv => rmap VTuple (rmapM (fun x => rec x b) xs)       (* a[x] / b *)
       | _ => match xs with [] => Ok (VTuple []) | _ => Err end   (* b[x]: indexing a non-table; ("s")[x] is nil *)
@@ -198,8 +267,9 @@ Definition tuple_handler (o : aop) (rec : value -> value -> res value) (xs : lis
 
 (* `a o b` as Lua evaluates it (o one of + - * /) *)
 Fixpoint rt_arith (o : aop) (a b : value) {struct a} : res value :=
-  match to_num a, to_num b with
-  | Some x, Some y => rmap VNum (num_op o x y)
+  match operand_of a, operand_of b with
+  | ONum x, ONum y => num_arith o x y
+  | ONum _, OStrNum | OStrNum, ONum _ | OStrNum, OStrNum => Unsup   (* a string coerced to a number *)
   | _, _ =>
       match a with
       | VTuple xs => tuple_handler o (fun x y => rt_arith o x y) xs b
@@ -210,7 +280,7 @@ Fixpoint rt_arith (o : aop) (a b : value) {struct a} : res value :=
           | VTuple _ => match s with EmptyString => Ok (VTuple []) | _ => Err end   (* #a = 0 / a[x] is nil *)
           | _ => Err
           end
-      | VNum _ | VBool _ | VLuaNil | VFun _ => Err             (* no metamethod / # of a non-table *)
+      | VInt _ | VFloat _ | VBool _ | VLuaNil | VFun _ => Err  (* no metamethod / # of a non-table *)
       | _ => match b with VTuple _ => Unsup | _ => Err end      (* exotic first operand: not modelled *)
       end
   end.
@@ -228,27 +298,31 @@ Definition rt_div := rt_arith OpDiv.                            (* (a / b) *)
 (* (-a) *)
 Fixpoint rt_neg (a : value) : res value :=
   match a with
-  | VNum q => Ok (VNum (q_neg q))
-  | VStr s => match LuaCore.str_to_num s with Some q => Ok (VNum (q_neg q)) | None => Err end
+  | VInt z => Ok (VInt (- z))
+  | VFloat q => Ok (VFloat (q_neg q))
+  | VStr s => if has_digit s then Unsup else Err
   | VTuple xs => rmap VTuple (rmapM (fun x => rt_neg x) xs)     (* __unm: out[x] = -a[x] *)
   | _ => Err
   end.
 
 (* ---- __INDEX ---- *)
 
-Definition q_to_index (q : Q) : option nat :=
-  if q_is_int q && (0 <=? Qnum q)%Z then Some (Z.to_nat (Qnum q)) else None.
+(* a table key given as a number: floats with an integer value are normalised to that integer *)
+Definition num_to_index (v : value) : option Z :=
+  match v with
+  | VInt z => Some z
+  | VFloat q => if q_is_int q then Some (Qnum q) else None
+  | _ => None
+  end.
 
 Definition rt_index (o i : value) : res value :=
   match o with
   | VLuaNil => Ok VLuaNil
   | VTuple vs | VList vs =>
-      match i with
-      | VNum q => match q_to_index q with
-                  | Some n => match nth_error vs n with Some e => Ok e | None => Err end
-                  | None => Err
-                  end
-      | _ => Err
+      match num_to_index i with
+      | Some z => if (0 <=? z)%Z then match nth_error vs (Z.to_nat z) with Some e => Ok e | None => Err end
+                  else Err
+      | None => Err                                            (* i + 1 on a non-number, or o[1.5] is nil *)
       end
   | VBlob fs =>
       match i with
@@ -256,10 +330,9 @@ Definition rt_index (o i : value) : res value :=
       | _ => Err
       end
   | VVariant tag p =>
-      match i with
-      | VNum q => if q_eqb q (q_int 1) then Ok (VStr tag)
-                  else if q_eqb q (q_int 2) then Ok (match p with VLuaNil => VNil | _ => p end)
-                  else Ok VNil
+      match num_to_index i with
+      | Some 1%Z => Ok (VStr tag)
+      | Some 2%Z => Ok (match p with VLuaNil => VNil | _ => p end)
       | _ => Ok VNil
       end
   | _ => Unsup
@@ -294,9 +367,6 @@ Definition rt_maybe_map (f : value -> value) (m : value) : res value :=
   end.
 
 (* ---- lists (preamble.lua list_*, std/list.sy) ---- *)
-
-Definition vint (z : Z) : value := VNum (z # 1).
-Definition vlen (n : nat) : value := vint (Z.of_nat n).
 
 Fixpoint replace_nth {A : Type} (n : nat) (x : A) (l : list A) : list A :=
   match l, n with
@@ -419,7 +489,7 @@ Definition rt_set_from_list (l : value) : res value :=
 
 (* ---- math helpers (std/math.sy; sign, div, floor, rem are Lua) ---- *)
 
-Definition q_zero : Q := q_int 0.
+Definition v_zero : value := VInt 0.
 
 (* min :: pu a, b -> if a < b do a else do b end *)
 Definition rt_min (a b : value) : res value := rbind (rt_lt a b) (fun c => Ok (if c then a else b)).
@@ -427,24 +497,32 @@ Definition rt_min (a b : value) : res value := rbind (rt_lt a b) (fun c => Ok (i
 Definition rt_max (a b : value) : res value := rbind (rt_gt a b) (fun c => Ok (if c then a else b)).
 (* abs :: pu n -> if n < 0 do -n else do n end *)
 Definition rt_abs (n : value) : res value :=
-  rbind (rt_lt n (VNum q_zero)) (fun c => if c then rt_neg n else Ok n).
+  rbind (rt_lt n v_zero) (fun c => if c then rt_neg n else Ok n).
 (* clamp :: pu x, lo, hi -> min(hi, max(x, lo)) *)
 Definition rt_clamp (x lo hi : value) : res value := rbind (rt_max x lo) (fun m => rt_min hi m).
 (* function sign(x) if x > 0 then return 1 elseif x < 0 then return -1 else return 0 end end *)
 Definition rt_sign (x : value) : res value :=
-  rbind (rt_gt x (VNum q_zero)) (fun c =>
-    if c then Ok (vint 1)
-    else rbind (rt_lt x (VNum q_zero)) (fun c' => Ok (if c' then vint (-1) else vint 0))).
+  rbind (rt_gt x v_zero) (fun c =>
+    if c then Ok (VInt 1)
+    else rbind (rt_lt x v_zero) (fun c' => Ok (if c' then VInt (-1) else VInt 0))).
+(* math.floor: an integer *)
+Definition rt_floor (x : value) : res value :=
+  match x with
+  | VInt z => Ok (VInt z)
+  | VFloat q => Ok (VInt (q_floor q))
+  | VStr s => if has_digit s then Unsup else Err
+  | _ => Err
+  end.
 (* function div(a, b) if b == 0 then return 0 end return math.floor(a / b) end *)
 Definition rt_idiv (a b : value) : res value :=
-  if rt_eq b (VNum q_zero) then Ok (vint 0)
-  else rbind (rt_div a b) (fun c => match c with VNum q => Ok (vint (q_floor q)) | _ => Err end).
-(* floor = math.floor *)
-Definition rt_floor (x : value) : res value :=
-  match to_num x with Some q => Ok (vint (q_floor q)) | None => Err end.
-(* function rem(x, y) return math.abs(x % y) end *)
+  if rt_eq b v_zero then Ok (VInt 0) else rbind (rt_div a b) rt_floor.
+(* function rem(x, y) return math.abs(x % y) end
+   x % y = x - floor(x/y)*y; integer % 0 is an error, float % 0 is NaN *)
 Definition rt_rem (x y : value) : res value :=
-  match to_num x, to_num y with
-  | Some p, Some q => if q_is_zero q then Unsup else Ok (VNum (q_abs (q_mod p q)))
+  match x, y with
+  | VInt a, VInt b => if (b =? 0)%Z then Err else Ok (VInt (Z.abs (Z.modulo a b)))
+  | VInt a, VFloat q => if q_is_zero q then Unsup else Ok (VFloat (q_abs (q_mod (a # 1) q)))
+  | VFloat p, VInt b => if (b =? 0)%Z then Unsup else Ok (VFloat (q_abs (q_mod p (b # 1))))
+  | VFloat p, VFloat q => if q_is_zero q then Unsup else Ok (VFloat (q_abs (q_mod p q)))
   | _, _ => Err
   end.
